@@ -57,8 +57,16 @@ ObjGet(d, k) == (CHOOSE i \in DOMAIN d.o : d.o[i].k = k) \* index
 ObjVal(d, k) == d.o[ObjGet(d, k)].v
 
 (* ---------- JSON equality ---------- *)
+\* Numerals have two encodings ("num" in quarters, "big" landmark + offset).  The harness abstracts
+\* observed JSON numbers below 2^18 as "num" and larger ones as "big" (abs.FromJSON); unit families that
+\* write small values as landmarks (C15: 2^7, 2^8, 2^15, 2^16 and 0 as e = 0) are brought to the same
+\* encoding before comparison, so that JSON equality is equality of VALUES.
+RECURSIVE Pow2(_)
+Pow2(n) == IF n = 0 THEN 1 ELSE 2 * Pow2(n - 1)
+CanonNum(x) == IF x.t = "big" /\ x.e <= 16 THEN [t |-> "num", h |-> (x.sg * Pow2(x.e) + x.o) * 4] ELSE x
 RECURSIVE JEq(_, _)
-JEq(a, b) ==
+JEq(a0, b0) ==
+  LET a == CanonNum(a0)  b == CanonNum(b0) IN
   /\ a.t = b.t
   /\ CASE a.t = "null" -> TRUE
        [] a.t = "bool" -> a.b = b.b
